@@ -998,3 +998,162 @@ func GenSelfNest(maxN int, rng *rand.Rand, sample int) []*Scn {
 	}
 	return out
 }
+
+// ---- many siblings of one z-index --------------------------------------------------
+
+// tiePoints lists the cells of the fan parent fp (absolute coordinates) at which
+// at least two of its children of the highest z-index found there have the same
+// z-index: which of them is on top is not stated, but it is one of them for a
+// frame and a point.
+func tiePoints(par []int, g []Geom, fp int) [][2]int {
+	ox, oy := origin(par, g, fp-1)
+	var pts [][2]int
+	for y := 0; y < g[fp-1].H; y++ {
+		for x := 0; x < g[fp-1].W; x++ {
+			best, cnt := 0, 0
+			for k := range par {
+				if par[k] != fp || x < g[k].X || x >= g[k].X+g[k].W || y < g[k].Y || y >= g[k].Y+g[k].H {
+					continue
+				}
+				switch {
+				case cnt == 0 || g[k].Z > best:
+					best, cnt = g[k].Z, 1
+				case g[k].Z == best:
+					cnt++
+				}
+			}
+			if cnt > 1 && ox+x >= 0 && oy+y >= 0 {
+				pts = append(pts, [2]int{ox + x, oy + y})
+			}
+		}
+	}
+	return pts
+}
+
+// GenTies: one surface (the root's, or that of the root's only child) with 13 to
+// 18 children, one row each, most of them of z-index 0; a few of them are
+// rectangles that overlap their siblings, one or two are raised or lowered. The
+// pointer rests on a cell shared by siblings of equal z-index while frames are
+// drawn from the unchanged tree and mouse events of every kind arrive at that
+// cell; then it moves, the layout is switched (other children raised) and back,
+// the terminal loses and regains the focus.
+func GenTies(rng *rand.Rand, count int) []*Scn {
+	var out []*Scn
+	for i := 0; i < count; i++ {
+		m := 13 + rng.Intn(6)
+		par, fp := []int{0}, 1
+		if rng.Intn(3) == 0 {
+			par, fp = append(par, 1), 2
+		}
+		first := len(par)
+		for k := 0; k < m; k++ {
+			par = append(par, fp)
+		}
+		cols, rows := 22+rng.Intn(8), m+2+rng.Intn(3)
+		g := make([]Geom, len(par))
+		g[0] = Geom{W: cols, H: rows}
+		if fp == 2 {
+			g[1] = Geom{X: 1, Y: 1, W: cols - 1, H: rows - 1}
+		}
+		pw, ph := g[fp-1].W, g[fp-1].H
+		for k := 0; k < m; k++ {
+			g[first+k] = Geom{X: 0, Y: k, W: pw, H: 1}
+		}
+		var tall []int
+		for t := 0; t < 2+rng.Intn(3); t++ {
+			k := first + rng.Intn(m)
+			g[k] = Geom{X: rng.Intn(pw / 2), Y: rng.Intn(ph - 3), W: 4 + rng.Intn(pw/2), H: 2 + rng.Intn(4)}
+			tall = append(tall, k)
+		}
+		// a child of its own below one or two of the rectangles: the chain goes on below the tie
+		for _, k := range tall[:rng.Intn(3)] {
+			par = append(par, k+1)
+			g = append(g, Geom{X: 0, Y: 0, W: g[k].W, H: g[k].H})
+		}
+		n := len(par)
+		raise := func(l []Geom) {
+			for r := 0; r < 1+rng.Intn(2); r++ {
+				l[first+rng.Intn(m)].Z = 1
+			}
+			if rng.Intn(3) == 0 {
+				l[first+rng.Intn(m)].Z = -1
+			}
+		}
+		l0 := append([]Geom(nil), g...)
+		raise(l0)
+		sc := &Scn{Kind: "ties", Cols: cols, Rows: rows, Parent: par, Lays: [][]Geom{l0}}
+		if rng.Intn(2) == 0 {
+			l1 := append([]Geom(nil), g...)
+			raise(l1)
+			sc.Lays = append(sc.Lays, l1)
+		}
+		nlay := len(sc.Lays)
+		for k := 0; k < n; k++ {
+			sc.Caps = append(sc.Caps, rng.Intn(3) == 0)
+		}
+		classes := []string{"mp0", "mr0", "mm3", "mm0", "mp64"}
+		for r := 0; r < rng.Intn(5); r++ {
+			ru := Rule{W: 1 + rng.Intn(n), Cls: classes[rng.Intn(len(classes))], Ph: phases[rng.Intn(3)], Cmd: cmd("consume")}
+			if rng.Intn(3) == 0 {
+				ru.Cmd = batch(cmd("redraw"), cmd("consume"))
+			}
+			sc.Rules = append(sc.Rules, ru)
+		}
+		if rng.Intn(4) == 0 {
+			// hover answered with a redraw (as a button does): a frame follows every change of the chain
+			sc.Rules = append(sc.Rules, Rule{Cls: []string{"enter", "leave"}[rng.Intn(2)], Cmd: cmd("redraw")})
+		}
+		sc.Rules = append(sc.Rules, genericRules(nlay)...)
+		pts := tiePoints(par, l0, fp)
+		point := func() (int, int) {
+			if len(pts) > 0 && rng.Intn(6) > 0 {
+				p := pts[rng.Intn(len(pts))]
+				return p[0], p[1]
+			}
+			return rng.Intn(cols + 1), rng.Intn(rows + 1)
+		}
+		at := func(b int, rel bool, x, y int) Step { return Step{T: "mouse", B: b, Rel: rel, X: x, Y: y} }
+		x, y := point()
+		if rng.Intn(2) == 0 {
+			sc.Steps = append(sc.Steps, at(35, false, x, y), key("R"), at(0, false, x, y), key("R"), key("R"), at(0, true, x, y))
+		}
+		for s := 0; s < 8+rng.Intn(10); s++ {
+			switch r := rng.Intn(20); {
+			case r < 6:
+				sc.Steps = append(sc.Steps, key("R"))
+			case r < 13:
+				b := []int{0, 0, 35, 35, 32, 64}[rng.Intn(6)]
+				sc.Steps = append(sc.Steps, at(b, b == 0 && rng.Intn(2) == 0, x, y))
+			case r < 15:
+				x, y = point()
+				sc.Steps = append(sc.Steps, at(35, false, x, y))
+			case r < 17:
+				sc.Steps = append(sc.Steps, key(fmt.Sprint(rng.Intn(nlay))))
+			case r < 18:
+				sc.Steps = append(sc.Steps, Step{T: "tfout"}, Step{T: "tfin"})
+			default:
+				sc.Steps = append(sc.Steps, key(keyLetters[rng.Intn(len(keyLetters))]))
+			}
+		}
+		out = append(out, sc)
+	}
+	return out
+}
+
+// FixedTies: 13 children of the root, one row each; the first is raised and lies
+// elsewhere, the seventh is a rectangle over the rows of the third to sixth (same
+// z-index). The pointer comes to rest on a cell of the fourth that the seventh
+// covers too; frames are drawn and buttons pressed there, nothing else changes.
+func FixedTies() *Scn {
+	par := []int{0}
+	g := []Geom{{W: 24, H: 22}}
+	for k := 0; k < 13; k++ {
+		par = append(par, 1)
+		g = append(g, Geom{X: 0, Y: k, W: 20, H: 1})
+	}
+	g[1].Y, g[1].Z = 20, 1
+	g[7] = Geom{X: 2, Y: 2, W: 10, H: 4}
+	return &Scn{Kind: "fixed-ties", Cols: 24, Rows: 22, Parent: par, Caps: make([]bool, len(par)), Lays: [][]Geom{g}, Rules: genericRules(1),
+		Steps: []Step{key("R"), mouse(35, 5, 3), key("R"), mouse(35, 5, 3), key("R"), mouse(0, 5, 3), Step{T: "mouse", B: 0, Rel: true, X: 5, Y: 3}, key("R"), key("R"),
+			mouse(35, 5, 8), mouse(35, 5, 3), key("R"), Step{T: "tfout"}, Step{T: "tfin"}, mouse(35, 5, 3), key("R")}}
+}
